@@ -951,6 +951,17 @@ fn brief(c: &CoreCase) -> String {
     )
 }
 
+/// Entry points without a `Ctx` (used by the coverage-guided fuzz target in /verif/fuzz).
+pub fn run_c07(case: &CoreCase) -> Result<CaseInfo, Violation> {
+    dispatch(case, |c, sha2| if sha2 { c07_run::<S2>(c) } else { c07_run::<B3>(c) })
+}
+pub fn run_c08(case: &CoreCase) -> Result<CaseInfo, Violation> {
+    dispatch(case, |c, sha2| if sha2 { adversarial::<S2>(c, false) } else { adversarial::<B3>(c, false) })
+}
+pub fn run_c18(case: &CoreCase) -> Result<CaseInfo, Violation> {
+    dispatch(case, |c, sha2| if sha2 { adversarial::<S2>(c, true) } else { adversarial::<B3>(c, true) })
+}
+
 pub struct C07;
 impl Check for C07 {
     type Case = CoreCase;
